@@ -17,7 +17,8 @@ Fixpoint sins (e : ev) (l : list ev) : list ev :=
   | x :: r => if key_lt e x then e :: x :: r else x :: sins e r
   end.
 
-Definition sp_new : sp := {| s_tcur := 0; s_zero := []; s_rest := []; s_next := 0 |}.
+Definition sp_new_at (ts : N) : sp := {| s_tcur := ts; s_zero := []; s_rest := []; s_next := 0 |}.
+Definition sp_new : sp := sp_new_at 0.
 
 Definition sp_len (s : sp) : N := N.of_nat (length (s_zero s) + length (s_rest s)).
 
@@ -51,6 +52,15 @@ Definition sp_fetch (s : sp) : sp * out :=
           end
   end.
 
+Definition sp_peek (s : sp) : out :=
+  match s_zero s with
+  | x :: _ => OPeek (Some (etime x))
+  | [] => match s_rest s with
+          | x :: _ => OPeek (Some (etime x))
+          | [] => OPeek None
+          end
+  end.
+
 Record sst := { ss : sp; shandles : list (N * N) }.
 
 Definition sp_step (s : sst) (o : op) : sst * out :=
@@ -64,6 +74,7 @@ Definition sp_step (s : sst) (o : op) : sst * out :=
   | Fetch => let '(q', x) := sp_fetch (ss s) in ({| ss := q'; shandles := shandles s |}, x)
   | Len => (s, OLen (sp_len (ss s)))
   | Time => (s, OTime (s_tcur (ss s)))
+  | Peek => (s, sp_peek (ss s))
   end.
 
 Fixpoint sp_run_from (s : sst) (ops : list op) : sst * list out :=
@@ -73,15 +84,17 @@ Fixpoint sp_run_from (s : sst) (ops : list op) : sst * list out :=
               let '(s'', xs) := sp_run_from s' r in (s'', x :: xs)
   end.
 
-Definition sp_init : sst := {| ss := sp_new; shandles := [] |}.
+Definition sp_init_at (ts : N) : sst := {| ss := sp_new_at ts; shandles := [] |}.
+Definition sp_init : sst := sp_init_at 0.
 
 Definition sp_run_ops (ops : list op) : list out := snd (sp_run_from sp_init ops).
+Definition sp_run_ops_at (ts : N) (ops : list op) : list out := snd (sp_run_from (sp_init_at ts) ops).
 
 (* same wire format as Model.run; n and t are read and ignored *)
 Definition sp_run (input : list N) : list N :=
   match input with
-  | n :: t :: r =>
+  | n :: t :: ts :: r =>
       if (n =? 0) || (t =? 0) then [7]
-      else flat_map enc_out (sp_run_ops (decode_all dec_op r))
+      else flat_map enc_out (sp_run_ops_at ts (decode_all dec_op r))
   | _ => [7]
   end.
